@@ -201,7 +201,7 @@ def run_history_check(ctx, prop, oracle_props, encoders, trusted, assumptions, e
                 idx.append(ti)
         if not terms:
             continue
-        neval, bad, nfiles, nok, err = C.eval_cases(ctx, name, header, terms, checker, case_type, per_file=2)
+        neval, bad, nfiles, nok, err = C.eval_cases(ctx, name, header, terms, checker, case_type, per_file=1)
         neval_total += neval
         if err:
             broken.append("%s case files did not evaluate: %s" % (name, err[-800:]))
